@@ -181,6 +181,24 @@ Edit(e) ==
                  [] OTHER -> Chk(FALSE, "MACHINERY", "unknown-op", e.op)
             /\ e.hasDeltas = 1 => Deltas(e, b, a)
 
+\* ---- import update (C36).  A path names a file (the import of exactly that path is rewritten to the new path, or removed)
+\* or, written with a trailing slash, a directory (every import below it keeps its path relative to the directory).
+\* Paths are token lists split at "/"; "lib2/b" is not below "lib/".
+IsPrefixT(a, b) == Len(a) <= Len(b) /\ \A k \in 1..Len(a) : a[k] = b[k]
+ImpHit(e, p) == IF e.kind = "dir" THEN IsPrefixT(e.old, p) /\ Len(p) > Len(e.old) ELSE p = e.old
+ImpNew(e, p) == IF e.kind = "dir" THEN e.new \o SubSeq(p, Len(e.old) + 1, Len(p)) ELSE e.new
+RECURSIVE ImpExpected(_, _)
+ImpExpected(e, n) == IF n > Len(e.before) THEN <<>>
+                     ELSE LET p == e.before[n] IN
+                          (IF ~ImpHit(e, p) THEN <<p>> ELSE IF e.kind = "remove" THEN <<>> ELSE <<ImpNew(e, p)>>) \o ImpExpected(e, n + 1)
+ImpUpdate(e) ==
+  /\ Chk(e.compilesBefore = 1, "MACHINERY", "generated-importing-program-does-not-compile", e.text)
+  /\ Chk(e.ok = 1, "C36", "import-update-failed-or-crashed", e.err)
+  /\ e.ok = 1 =>
+       /\ Chk(e.after = ImpExpected(e, 1), "C36", "import-update-did-not-rewrite-exactly-the-imports-of-the-renamed-path", <<e.kind, e.old, e.new, e.before, e.after, ImpExpected(e, 1)>>)
+       /\ Chk(e.compilesBefore = 1 => e.compilesAfter = 1, "C36", "source-after-an-import-update-does-not-compile", <<e.kind, e.old, e.new, e.compileErr, e.result>>)
+       /\ Chk(e.fmtFixed = 1, "C36", "source-after-an-import-update-is-changed-by-the-formatter", e.result)
+
 Init == l = 1 /\ tid = 0
 Next ==
   /\ l <= Len(Trace) /\ l' = l + 1
@@ -188,6 +206,7 @@ Next ==
        CASE e.ev = "reset" -> tid' = e.tid
          [] e.ev = "init"  -> Chk(e.ok = 1, "MACHINERY", "generated-program-does-not-compile", e.text) /\ UNCHANGED tid
          [] e.ev = "edit"  -> Edit(e) /\ UNCHANGED tid
+         [] e.ev = "impupdate" -> ImpUpdate(e) /\ UNCHANGED tid
          [] OTHER -> Chk(FALSE, "MACHINERY", "unknown-event", e.ev) /\ UNCHANGED tid
 Spec == Init /\ [][Next]_<<l, tid>>
 Done == PrintT(<<"TRACE-END", TLCGet("stats").diameter, Len(Trace)>>)
